@@ -41,6 +41,13 @@ impl Codec {
             return Err(Error::ClientError("Message too large to read".into()));
         }
 
+        // A message is never shorter than its own header
+        if (length as usize) < crate::diameter::HEADER_LENGTH as usize {
+            return Err(Error::DecodeError(
+                "Message length is shorter than a Diameter header".into(),
+            ));
+        }
+
         // Read the rest of the message
         let mut buffer = Vec::with_capacity(length as usize);
         buffer.extend_from_slice(&b);
